@@ -150,25 +150,27 @@ Theorem C19_block_indexed_once : forall hist : list block,
 Proof. exact BlockProofs.C19_block_indexed_once. Qed.
 Print Assumptions C19_block_indexed_once.
 
-(* 8. PARTIAL.  Full statement: for every history in which a height is indexed once or
-   re-indexed with the same events, and EVERY query of the language without TIME / DATE
-   operands, undotted EXISTS, string comparisons of block.height, with integer conditions only
-   on keys whose indexed values are canonical decimals and at most one lower and one upper
-   bound per key (both only on single-valued keys): Search returns, strictly ascending,
-   exactly the heights of the indexed blocks whose event map satisfies the pub/sub matcher.
-   Proved here: the same with at most ONE range condition (< <= > >=) per key — i.e. the whole
-   language of = 'string', = integer, CONTAINS, dotted EXISTS, one-sided integer ranges,
-   block.height conditions of all these kinds included, in any order and number, with both
-   loops of Search, the first-run / empty-set short-cuts, the Has filter and the sort.
-   Two-sided ranges on one key are modelled and checked by the differential run only.
-   Premises: BConsistent (blocks of one height carry the same indexed attributes), bwf_cond
-   (string conditions not on block.height; integer conditions on BNumKey keys: the indexed
-   values are decimal renderings on which matcher and indexer agree), one_range_per_key. *)
+(* 8. For every history in which a height is indexed once or re-indexed with the same events
+   (BConsistent) and EVERY query of the language outside the decidable known classes — no
+   TIME / DATE operands (36), no undotted EXISTS (38), no string comparison of block.height
+   (34), integer conditions only on keys whose indexed values are canonical decimals (37), and
+   per key one range condition or one lower and one upper bound on a single-valued key (25;
+   RangeShape) — Search returns, strictly ascending, exactly the heights of the indexed blocks
+   whose event map satisfies the pub/sub matcher: = 'string', = integer, CONTAINS, dotted
+   EXISTS, < <= > >=, block.height conditions of all these kinds included, in any order and
+   number, with LookForRanges, both loops of Search, the first-run / empty-set short-cuts, the
+   primary-key scan of block.height = H (F47), the Has filter and the sort.
+   PARTIAL: integer conditions on keys carrying digit-free values (both sides find nothing) are
+   monitored only, and "canonical decimal" is the semantic premise BNumKey (the
+   matcher's reading and strconv.ParseInt agree on the indexed values of the key, heights
+   included: NumOK) — the lemma that every [dec z], 0 <= z <= MaxInt64, is NumOK is missing.
+   Premises: BConsistent, bwf_cond (string conditions not on block.height; integer conditions
+   on BNumKey keys; EXISTS on dotted keys), RangeShape. *)
 Theorem C19_block_search_exact_partial : forall (hist : list block) (q : query),
   BConsistent hist ->
   q <> [] ->
   (forall c, In c q -> bwf_cond hist c) ->
-  one_range_per_key q ->
+  RangeShape hist q ->
   exists hs, bsearch (brun hist) q = BOk hs /\ StronglySorted Z.lt hs /\
     forall h, In h hs <->
       exists b, In b hist /\ index_ok b = true /\ b_height b = h /\
@@ -184,7 +186,7 @@ Print Assumptions C19_block_search_exact_partial.
 
 Example C19_block_search_exact_nonvacuous :
   BConsistent bnv_hist /\ bnv_q <> [] /\
-  (forall c, In c bnv_q -> bwf_cond bnv_hist c) /\ one_range_per_key bnv_q /\
+  (forall c, In c bnv_q -> bwf_cond bnv_hist c) /\ RangeShape bnv_hist bnv_q /\
   bsearch (brun bnv_hist) bnv_q = BOk [1%Z] /\
   bsat bnv_q bnv_b1 = true /\ bsat bnv_q bnv_b2 = false /\ bsat bnv_q bnv_b4 = false.
 Proof. pose proof BlockProofs.C19_block_search_exact_nonvacuous as H. intuition. Qed.
